@@ -2,6 +2,7 @@
 package main
 
 import (
+	"runtime"
 	"fmt"
 	"net/url"
 	"sort"
@@ -17,7 +18,7 @@ import (
 func main() {
 	vk.Main(&vk.Check{
 		ID:   "C06",
-		Rule: "token sequences: every concatenation of <=N JSON tokens (N=4 quick / 5 thorough) over a 16-symbol alphabet decoded into each of 10 target types (field \"f\" of every structural kind, recursive types included); shape matrix: every (kind x label x context) schema x 40 JSON values of depth <=2 in the position of the field; prefixes and single-byte substitutions (12-byte alphabet) of one canonical document per schema; nesting bombs through every recursive path (depth 10..10^4 quick, 10^5 thorough), huge numbers and strings; url.Values: 20 keys x 11 value lists per schema; non-trivial = non-empty input; distinct by construction",
+		Rule: "token sequences: every concatenation of <=N JSON tokens (N=4 quick / 5 thorough) over a 16-symbol alphabet decoded into each of 10 target types (field \"f\" of every structural kind, recursive types included); shape matrix: every (kind x label x context) schema x 40 JSON values of depth <=2 in the position of the field; prefixes and single-byte substitutions (12-byte alphabet) of one canonical document per schema; nesting bombs through every recursive path (depth 10..10^4 quick, 10^5 thorough), huge numbers and strings; allocation growth of 20 input shapes at 2000 vs 8000 repetitions; url.Values: 20 keys x 11 value lists per schema; non-trivial = non-empty input; distinct by construction",
 		Assumptions: []string{
 			"'never loops forever' is decided by a progress watchdog (120 s per input of at most a few hundred kB), not by a termination proof",
 			"workers run with Go's default 1 GB goroutine stack limit: a stack overflow is reported only if the real process would die too",
@@ -364,6 +365,65 @@ func run(r *vk.Runner) {
 			}
 		}
 	}
+	// ---- (4b) growth: work must grow linearly with the input, measured in allocated bytes (no clock) ----
+	r.Family("growth")
+	grow := func(name string, mk func(n int) string) {
+		r.Do("growth:"+name, func(t *vk.T) {
+			t.Coord("growth|" + name)
+			t.SigCoord("json")
+			t.Nontrivial()
+			measure := func(n int) uint64 {
+				doc := []byte(mk(n))
+				msg := dynamicpb.NewMessage(rs.Desc(rs.Root))
+				var a, b runtime.MemStats
+				runtime.ReadMemStats(&a)
+				_ = codec.JSONToProto(doc, msg)
+				runtime.ReadMemStats(&b)
+				t.Step()
+				return b.TotalAlloc - a.TotalAlloc
+			}
+			measure(10) // warm the schema caches
+			small, large := measure(2000), measure(8000)
+			if small > 0 && large > 10*small {
+				t.Violation("superlinear-growth|"+name, fmt.Sprintf("decoding %s: a 4x larger input allocates %.1fx more (%d -> %d bytes): work is not bounded by the input size", name, float64(large)/float64(small), small, large), name, "<= 10x (linear is 4x, quadratic 16x)", fmt.Sprintf("%.1fx", float64(large)/float64(small)))
+			}
+		})
+	}
+	for _, name := range sortedKeys(paths) {
+		p := paths[name]
+		for _, closed := range []bool{true, false} {
+			p, closed := p, closed
+			grow(fmt.Sprintf("%s:closed=%v", name, closed), func(n int) string {
+				doc := strings.Repeat(p[0], n) + `{}`
+				if closed {
+					doc += strings.Repeat(p[1], n)
+				}
+				return doc
+			})
+		}
+	}
+	grow("many-keys", func(n int) string { return `{` + strings.Repeat(`"s":"x",`, n) + `"s":"y"}` })
+	grow("many-elements", func(n int) string { return `{"a":[` + strings.Repeat(`{},`, n) + `{}]}` })
+	grow("many-map-keys", func(n int) string {
+		var sb strings.Builder
+		sb.WriteString(`{"m":{`)
+		for i := 0; i < n; i++ {
+			fmt.Fprintf(&sb, `"k%d":{},`, i)
+		}
+		sb.WriteString(`"z":{}}}`)
+		return sb.String()
+	})
+	grow("many-unknown-keys", func(n int) string {
+		var sb strings.Builder
+		sb.WriteString(`{"f":{`)
+		for i := 0; i < n; i++ {
+			fmt.Fprintf(&sb, `"s":"%d",`, i)
+		}
+		sb.WriteString(`"nope":1}}`)
+		return sb.String()
+	})
+	grow("long-string", func(n int) string { return `{"s":"` + strings.Repeat(`\u0041`, n) + `"}` })
+	grow("long-digits", func(n int) string { return `{"s":` + strings.Repeat("9", n) + `}` })
 	for _, d := range []int{10, 1000, 100000} {
 		d := d
 		huge := map[string]string{
